@@ -127,6 +127,39 @@ def tool_funnel(ctx, info):
     r = subprocess.run([info["tools"]["gensquashfs"], "-q", "-f", "-F", pf, img], capture_output=True)
     if r.returncode == 0:
         problems.append(("pack-file-dotdot", "gensquashfs accepted pack file path with '..'"))
+    # one archive per member name, the names chosen at the case splits of the canonicaliser (every position a
+    # '.', '..' or empty component can take, alone and combined): the entry must be stored under exactly the
+    # canonical path, or - when a component is '..' - not at all.  A shortcut in front of canonicalize_name that
+    # decides some names "look clean" shows up here.
+    def spec(nm):
+        comps = [c for c in nm.split("/") if c != ""]
+        if ".." in comps:
+            return None
+        return "/".join(c for c in comps if c != ".")
+    names = ["foo/..", "foo/sub/.", "foo/sub/..", "foo/.", "a/./b", "a//b", "./a", "a/", "/a", "a/../b", "a/b/../..",
+             "../a", "a/..b", "a/b..", "..a/b", ".a/b", "a/.b/.", "a/.../b", "a/b/./.", "./a/./b/./", "a/b/", "a//b//", "x/y/../z/."]
+    for i, nm in enumerate(names):
+        tp2 = os.path.join(d, "n%d.tar" % i)
+        with tarfile.open(tp2, "w", format=tarfile.GNU_FORMAT) as tf:
+            ti = tarfile.TarInfo(nm)
+            ti.size = 3
+            tf.addfile(ti, io.BytesIO(b"abc"))
+        img3 = os.path.join(d, "n%d.sqfs" % i)
+        r = subprocess.run([info["tools"]["tar2sqfs"], "-q", "-f", img3], stdin=open(tp2, "rb"), capture_output=True)
+        want = spec(nm)
+        if r.returncode != 0:
+            if want is not None and want != "":
+                problems.append(("tar-member-refused", "tar2sqfs refused the member name %r (canonical form %r): %s"
+                                 % (nm, want, r.stderr.decode()[:160])))
+            continue
+        r2 = subprocess.run([info["tools"]["rdsquashfs"], "-d", img3], capture_output=True)
+        lines = [l.split(" ") for l in r2.stdout.decode().split("\n") if l.startswith("file ")]
+        stored = sorted(l[1] for l in lines if len(l) > 1)
+        if want is None:
+            if stored:
+                problems.append(("tar-member-dotdot", "tar member %r has a '..' component but was stored as %r" % (nm, stored)))
+        elif want != "" and stored != [want]:
+            problems.append(("tar-member-canon", "tar member %r must be stored as %r, image has %r" % (nm, want, stored)))
     return problems
 
 
